@@ -186,11 +186,76 @@ def r4_public_from_private(cx):
             cx.check("public-from-same-pair:" + name, src_ok and bool(tb64), site_of(fn, ci), "the printed public key is computed from the key pair built from that private key / seed")
 
 
+VERBATIM_CALLS = ("ops::Deref::deref", "Deref>::deref", "string::String::as_str", "String::as_str", "convert::AsRef::as_ref", "AsRef>::as_ref",
+                  "borrow::Borrow::borrow", "option::Option::<T>::as_deref", "option::Option::<T>::as_ref", "Option::as_deref", "Option::as_ref",
+                  "as_deref", "as_str", "ops::Try::branch")
+
+
+def _verbatim_source(body, op, depth=0):
+    """Trace a &str / Option<&str> operand back to the place it is borrowed from, through identity-like calls only
+    (deref, as_str, as_ref, as_deref, borrow). Returns the root place, or the offending ('call'|'rvalue'|'const', ...)."""
+    o = origin(body, op)
+    if depth > 8:
+        return ("deep",)
+    if o[0] == "call":
+        t = o[2]
+        if t.get("args") and callee_is(t, *VERBATIM_CALLS):
+            return _verbatim_source(body, t["args"][0], depth + 1)
+        if callee_is(t, "structopt::StructOpt::from_args", "StructOpt>::from_args", "dialoguer::Password::interact", "Password::<'_>::interact", "Password::interact"):
+            return ("place", {"l": 0, "parsed": True})
+        return ("call", t["callee"]["path"] if t.get("callee") else "?")
+    if o[0] == "place":
+        return ("place", o[1])
+    if o[0] == "rvalue":
+        rv = o[2]["rv"]
+        if rv["k"] == "ref":
+            return _verbatim_source(body, rv["place"], depth + 1)
+        if rv["k"] == "use":
+            return _verbatim_source(body, rv["op"], depth + 1)
+        if rv["k"] == "aggregate" and rv.get("adt", "").endswith("option::Option"):
+            if not rv["ops"]:
+                return ("place", {"l": 0, "none": True})
+            return _verbatim_source(body, rv["ops"][0], depth + 1)
+        return ("rvalue", rv["k"])
+    return (o[0],)
+
+
+def r6_password_verbatim(cx):
+    """The password text reaches PBKDF2 exactly as configured: at the run-time site (Crypto::new -> keypair_from_password) and at the
+    genkey site (generate_keypair) alike. A normalisation (trim, case folding, ...) at one of them makes the two derivations disagree
+    for some passwords - the printed key pair is then not the one the node uses."""
+    prog = cx.prog
+    n = 0
+    # (a) the receiver of as_bytes at each derivation is the function's own password argument
+    for (b, bi, t) in _derive_sites(prog):
+        cx.touch(b)
+        o = origin(b, t["args"][3])
+        if o[0] == "call" and callee_is(o[2], "str::<impl str>::as_bytes"):
+            src = _verbatim_source(b, o[2]["args"][0])
+            ok = src[0] == "place" and 1 <= src[1]["l"] <= b.arg_count
+            cx.check("derivation-takes-argument-verbatim:" + b.name, ok, site_of(b, bi),
+                     "the text handed to PBKDF2 is the function's password argument, untransformed (source: %s)" % (src[0] if src[0] != "call" else "call " + src[1]))
+            n += 1
+    # (b) every caller of the two derivation functions passes a stored / parsed password untransformed
+    targets = [A.method(prog, "Crypto", "keypair_from_password"), A.method(prog, "Crypto", "generate_keypair")]
+    for tgt in targets:
+        for b in prog.bodies:
+            for bi, t in b.calls():
+                if any(d == tgt.did for _k, d in prog.cg.resolve(b, t)) and t.get("args"):
+                    cx.touch(b)
+                    src = _verbatim_source(b, t["args"][0])
+                    cx.check("caller-passes-password-verbatim:%s->%s" % (b.name, tgt.name.split("::")[-1]), src[0] == "place", site_of(b, bi),
+                             "the password argument is a configured value borrowed as is (source: %s)" % (src[0] if src[0] != "call" else "call " + src[1]))
+                    n += 1
+    cx.floor("password-flow-sites", n, 4, "password hand-over sites (2 derivations + their callers)")
+
+
 RULES = [
     ("C18.R1", r1_keys_survive_text_codec, "keys decoded from text are length-restored before fixed-length use (base-62 drops leading zero bytes)"),
     ("C18.R2", r2_one_derivation, "one password derivation: identical PBKDF2 parameters at genkey and run time, no randomness"),
     ("C18.R3", r3_own_key_trusted_by_default, "own public key is trusted iff no trusted keys are configured"),
     ("C18.R5", c20.r2_field_flow_matrix, "password and key texts reach the crypto configuration exactly as given, from file and command line alike (= C20.R2: every stored value is its source field, no transformation)"),
+    ("C18.R6", r6_password_verbatim, "the password text reaches both PBKDF2 derivations untransformed (no trim / case folding at one site only)"),
     ("C18.R4", r4_public_from_private, "public key is derived from the private key's pair"),
 ]
 
